@@ -22,7 +22,7 @@ CAP_E = 3.0e4       # 10 x the C01 constant A: the floor never exceeds CAP_E * E
 MIN_COUNTERS = dict(quick={'honesty_asserted:Derivative': 1200, 'honesty_asserted:Gradient': 150,
                            'honesty_asserted:Jacobian': 150, 'honesty_asserted:Hessdiag': 150,
                            'honesty_asserted:Hessian': 150, 'record_asserted': 3000,
-                           'estimate_decided_the_case': 100, 'stationary_point_entries_asserted': 60, 'overlapping_f_value_asserted': 60, 'broadcast_entries_asserted': 500},
+                           'estimate_decided_the_case': 100, 'stationary_point_entries_asserted': 60, 'overlapping_f_value_asserted': 60, 'broadcast_entries_asserted': 500, 'selection_tables_asserted': 200},
                     thorough={'honesty_asserted:Derivative': 60000})
 RULE = ('Input classes and histories as in C01, plus full_output switched on after construction, stationary points with a single difference quotient, and the C01 corpus. ' 
         'Derivative cases as in C01 (random expression programs x points x every (method, n, order) cell x step '
@@ -84,6 +84,9 @@ def cases(rng, tier, shard, nshards):
         for c in KNOWN_WITNESSES:
             yield dict(c)
     total = BUDGET[tier] // nshards
+    for j in range(40 if tier == 'quick' else 400):
+        yield dict(kind='selection', rows=int(rng.integers(3, 13)), cols=int(rng.integers(1, 6)), seed=int(rng.integers(0, 2 ** 31)),
+                   pattern=['random', 'ends', 'nan_between'][j % 3])
     for j in range(6 if tier == 'quick' else 60):
         yield dict(kind='overlap', cls=['Derivative', 'Gradient', 'Jacobian', 'Hessdiag', 'Hessian'][(j + shard) % 5],
                    method=str(rng.choice(['central', 'forward', 'backward', 'complex'])), threads=bool(j % 2),
@@ -590,7 +593,59 @@ def run_view_output(case, ctx):
     ctx.nontrivial(('view_output', case['which'], case['method']))
 
 
+def run_selection(case, ctx):
+    """The selection step itself (_Limit._get_best_estimate, the function every class ends in) on synthetic tables with exact ties in
+    the error column - adjacent, at both ends of the step sequence, separated by nan rows: the record handed out is *one row* of the
+    table (value, error and step belong together) and that row carries the smallest error of its column."""
+    from numdifftools.limits import _Limit
+    rng = np.random.default_rng(case['seed'])
+    rows, cols = case['rows'], case['cols']
+    der = rng.normal(size=(rows, cols))
+    levels = np.array([0.0, 1e-13, 1e-13, 1e-9, 1e-6, np.nan])
+    errors = levels[rng.integers(0, len(levels), size=(rows, cols))]
+    pattern = case['pattern']
+    for j in range(cols):
+        if pattern == 'ends':           # the smallest error at the first and the last row(s) only
+            errors[:, j] = np.where(np.isnan(errors[:, j]), 1e-6, np.maximum(errors[:, j], 1e-9))
+            errors[0, j] = errors[-1, j] = 0.0
+            if rows > 4 and rng.random() < 0.5:
+                errors[1, j] = 0.0
+        elif pattern == 'nan_between':  # ties separated by rows without an estimate
+            errors[:, j] = 1e-9
+            k0 = int(rng.integers(0, rows - 2))
+            errors[k0, j] = errors[min(k0 + 2, rows - 1), j] = 1e-13
+            errors[k0 + 1, j] = np.nan
+        if np.all(np.isnan(errors[:, j])):
+            errors[0, j] = 1e-9
+    # equal values where the errors are equal and zero (as a table of a flat function would have), different elsewhere
+    der = np.where(errors == 0.0, np.round(der[0:1, :], 3), der)
+    der = np.where(np.isnan(errors), np.nan, der)
+    steps = np.repeat((0.5 ** np.arange(rows))[:, None], cols, axis=1)
+    err_in = errors.copy()
+    try:
+        with np.errstate(all='ignore'):
+            val, info = _Limit._get_best_estimate(der.copy(), err_in, steps.copy(), (cols,))
+    except Exception as exc:
+        ctx.count('selection_function_not_callable_as_documented(%s)' % type(exc).__name__)
+        return
+    ctx.count('selection_tables_asserted')
+    val, err, fs = np.ravel(val), np.ravel(info.error_estimate), np.ravel(info.final_step)
+    for j in range(cols):
+        # (err_in now holds the errors the selection worked on: the outlier penalty is added in place)
+        ok = [r for r in range(rows) if (der[r, j] == val[j] or (np.isnan(der[r, j]) and np.isnan(val[j]))) and err_in[r, j] == err[j]
+              and steps[r, j] == fs[j]]
+        colmin = np.nanmin(err_in[:, j])
+        if not ok or not err[j] == colmin:
+            ctx.reject('record_is_not_one_row_of_the_table_with_the_smallest_error', observed=[float(val[j]), float(err[j]), float(fs[j])],
+                       expected=dict(column_minimum=float(colmin)),
+                       detail=dict(column=j, pattern=pattern, der=der[:, j], errors=err_in[:, j], steps=steps[:, j]), where='selection')
+            return
+    ctx.nontrivial(('selection', pattern, rows, cols))
+
+
 def run_case(case, ctx):
+    if case['kind'] == 'selection':
+        return run_selection(case, ctx)
     if case['kind'] == 'view_output':
         return run_view_output(case, ctx)
     if case['kind'] == 'first_entry_real':
